@@ -13,6 +13,7 @@ package harness
 //    canonical instantiation per cell.
 
 import (
+	"unicode"
 	"encoding/json"
 	"errors"
 	"fmt"
@@ -926,8 +927,10 @@ func propC05Admission(t *testing.T, col *Collector, known5 bool) func(rt *rapid.
 		}
 		if cfg.Hook == "reject" {
 			cfg.HookMsg = rapid.OneOf(
-				rapid.SampledFrom([]string{"nope", "", "Forbidden", `he said "no"`, `back\slash`, "line\nbreak", "</script><!--", "tab\there", "ünïcödé 😀", `{"code":0}`, " x"}),
+				rapid.SampledFrom([]string{"nope", "", "Forbidden", `he said "no"`, `back\slash`, "line\nbreak", "</script><!--", "tab\there", "ünïcödé 😀", `{"code":0}`, " x",
+					"\x1b[31mdenied\x1b[0m", "nul\x00byte", "del\x7f", "bell\a vt\v ff\f bs\b cr\r", "ps\u2029", "astral \U0001F600 \U000E0001", "\ufeffbom"}),
 				rapid.StringMatching(`[ -~]{0,40}`),
+				rapid.StringOfN(rapid.RuneFrom(nil, unicode.Cc, unicode.Latin, unicode.Zl, unicode.Zp, unicode.Cf, unicode.So), 0, 12, -1),
 			).Draw(rt, "hookMsg")
 		}
 		if known5 && !cfg.AllowEIO3 {
